@@ -507,38 +507,115 @@ def _tent_valid(instance, start, peak, end):
     return start <= peak <= end and not (start < 0 and end > 0 and peak != 0)
 
 
+def _implied_spec(instance, peak):
+    # a tuple variation header without an intermediate region: the region runs from zero to the peak
+    return _tent_spec(instance, min(peak, Fraction(0)), peak, max(peak, Fraction(0)))
+
+
 def r12_tent(run, fx, floors=True):
     import fnread
+    import pathwalk as pw
     rule = "R12-TENT"
-    run.rule(rule, "per-axis scalar of a variation region (item variation stores, gvar/cvar tuples, CFF2 blend): the function calculate_scalar, read "
-                   "as a decision list over (instance, start, peak, end) - every path's comparisons and its result formula, evaluated in exact "
-                   "rational arithmetic - equals the specification's tent function for every assignment of a grid of nine values per parameter "
-                   "(-1 .. 1 in quarters; all orderings and ties of the four parameters, and zero) restricted to well-formed regions: 1 when peak is "
-                   "0, 0 outside start..=end, 1 at the peak, (instance - start) / (peak - start) below it, (end - instance) / (end - peak) above it")
+    run.rule(rule, "per-axis scalar of a variation region (item variation stores, gvar/cvar tuples, CFF2 blend): every scalar function of "
+                   "tables::variable_fonts (calculate_scalar today), read as a decision list over its parameters - every path's comparisons and its "
+                   "result formula, evaluated in exact rational arithmetic - equals the specification's tent function for every assignment of a grid "
+                   "of nine values per parameter (-1 .. 1 in quarters; all orderings and ties, and zero) restricted to well-formed regions: 1 when "
+                   "peak is 0, 0 outside start..=end, 1 at the peak, (instance - start) / (peak - start) below it, (end - instance) / (end - peak) "
+                   "above it. A function of (instance, peak) alone is compared with the tent over the implied region min(peak, 0) ..= max(peak, 0). "
+                   "Implied regions: where determine_applicable builds the region of a header without intermediate coordinates from the sign of the "
+                   "peak, the start pushed is min(peak, 0) and the end pushed is max(peak, 0) on every arm")
     grid = [Fraction(k, 4) for k in range(-4, 5)]
     n = 0
+    implied = 0
     for b in fx.bodies:
-        if b.kind == "Closure" or not re.search(r"variable_fonts::calculate_scalar\w*$", b.path):
+        if b.kind == "Closure" or not re.search(r"variable_fonts::calculate_\w*scalar\w*$", b.path):
+            continue
+        params = [b.local_name(i) for i in range(1, b.arg_count + 1)]
+        short = b.path.split("::")[-1]
+        names = sorted(p or "" for p in params)
+        if names == ["end", "instance", "peak", "start"]:
+            spec, valid, what = _tent_spec, _tent_valid, "tent function"
+        elif names == ["instance", "peak"]:
+            spec, valid, what = _implied_spec, None, "tent function over the implied region"
+            implied += 1
+        else:
+            run.notes.append("%s: %s takes %s - not read as a region scalar" % (rule, b.path, params))
             continue
         n += 1
-        params = [b.local_name(i) for i in range(1, b.arg_count + 1)]
-        if sorted(p or "" for p in params) != ["end", "instance", "peak", "start"]:
-            run.fail(rule, "tent-params:%s" % b.path.split("::")[-1], "%s takes %s; the rule reads it as a function of instance, start, peak and end" % (b.path, params), "%s:%s" % (b.file, b.line))
-            continue
         try:
-            cnt, bad = fnread.compare(b, params, grid, _tent_spec, _tent_valid)
+            cnt, bad = fnread.compare(b, params, grid, spec, valid)
         except fnread.Undecided as e:
-            run.fail(rule, "tent-shape:%s" % b.path.split("::")[-1], "%s is no longer a decision list over its four parameters that this rule can read (%s): the region scalar is "
+            run.fail(rule, "tent-shape:%s" % short, "%s is no longer a decision list over its parameters that this rule can read (%s): the region scalar is "
                      "not decided" % (b.path, e), "%s:%s" % (b.file, b.line))
             continue
         if bad:
             a, got, want = bad[0]
-            run.fail(rule, "tent:%s" % b.path.split("::")[-1], "%s differs from the specification's region scalar, e.g. for instance=%s start=%s peak=%s end=%s it yields %s, the specification %s "
-                     "(%d of %d well-formed assignments compared differ at least here)" % (b.path, a["instance"], a["start"], a["peak"], a["end"], got, want, len(bad), cnt), "%s:%s" % (b.file, b.line))
+            run.fail(rule, "tent:%s" % short, "%s differs from the specification's region scalar (%s), e.g. for %s it yields %s, the specification %s" % (
+                b.path, what, " ".join("%s=%s" % (k, a[k]) for k in params), got, want), "%s:%s" % (b.file, b.line))
         else:
-            run.ok(rule, "%s equals the specification's tent function on %d well-formed assignments" % (b.path, cnt))
+            run.ok(rule, "%s equals the specification's %s on %d assignments" % (b.path, what, cnt))
+    # implied regions built from the sign of the peak
+    for b in fx.bodies:
+        if "determine_applicable" not in b.path:
+            continue
+        for bi in range(len(b.blocks)):
+            t = b.term(bi)
+            if not (b.reachable(bi) and t["k"] == "switch" and t.get("dty") in ("i16", "i32", "i8") and len(t["arms"]) >= 2):
+                continue
+            prov = sym.Prov(b)
+            d = sym.strip(prov.op(t["discr"]))
+            if not (d[0] == "call" and str(d[1]).endswith("::signum")):
+                continue
+            import loops
+            hdrs = [lp[0] for lp in loops.natural_loops(b) if bi in lp[1]]
+            w = pw.Walk(b, None, hdrs, start=bi)
+            if w.dropped or not w.paths:
+                run.notes.append("%s: implied region in %s not decided (%s)" % (rule, b.path, "; ".join(w.dropped) or "no path"))
+                continue
+            bits = {"i16": 16, "i32": 32, "i8": 8}[t["dty"]]
+            problems = []
+            decided = 0
+            for conds, env, _end, _kind in w.paths:
+                # the walk starts at the switch on the sign: its arm is the first condition of the path
+                v = conds[0][1] if conds else None
+                signed = lambda u: u - (1 << bits) if u >= (1 << (bits - 1)) else u
+                sgn = signed(v) if isinstance(v, int) else None
+                if isinstance(v, tuple) and v and v[0] == "not":
+                    rest = {-1, 0, 1} - {signed(u) for u in v[1] if isinstance(u, int)}
+                    sgn = rest.pop() if len(rest) == 1 else None       # the catch-all arm of a match that names the two other signs
+                if sgn not in (-1, 0, 1):
+                    continue
+                pushes = {}
+                for _bb, name, args, _p in env.get(pw.Walk.CALLS, ()):
+                    if name.endswith("::push") and len(args) == 2:
+                        tgt = sym.show(args[0])
+                        side = "start" if "start" in tgt else "end" if "end" in tgt else None
+                        if side:
+                            pushes.setdefault(side, []).append(args[1])
+                if sorted(pushes) != ["end", "start"] or any(len(v) != 1 for v in pushes.values()):
+                    continue
+                decided += 1
+                for pk in ([Fraction(-1), Fraction(-1, 4)] if sgn < 0 else [Fraction(1, 4), Fraction(1)] if sgn > 0 else [Fraction(0)]):
+                    ev = fnread.GridEval({"peak": pk})
+                    try:
+                        st, en = ev.ev(pushes["start"][0]), ev.ev(pushes["end"][0])
+                    except (fnread.Undecided, fnread.DivZero) as e:
+                        decided -= 1
+                        break
+                    if (st, en) != (min(pk, 0), max(pk, 0)):
+                        problems.append("for a peak of %s the implied region is %s ..= %s; the specification's is %s ..= %s" % (pk, st, en, min(pk, 0), max(pk, 0)))
+                        break
+            if problems:
+                run.fail(rule, "implied-region", "%s builds the region of a tuple without intermediate coordinates wrongly: %s" % (b.path, "; ".join(problems[:2])), b.loc(t))
+                implied += 1
+            elif decided >= 3:
+                run.ok(rule, "%s: implied region = min(peak, 0) ..= max(peak, 0) on the three arms of the sign of the peak" % b.path)
+                implied += 1
+            else:
+                run.notes.append("%s: implied region in %s not decided (%d of 3 arms read)" % (rule, b.path, decided))
     if floors:
         run.floor(rule, "region scalar functions", n, 1)
+        run.floor(rule, "constructions of the implied region of a tuple without intermediate coordinates (sign table or a scalar function of instance and peak)", implied, 1)
 
 
 def check(run, fx, tier, floors=True):
